@@ -77,10 +77,10 @@ func runPLHistory(base *explore.Base, word []explore.Op) *plHistory {
 // allowed computes, for a power failure at log position p, the admissible values per key:
 // the value at the last completed durability point plus every later written value / deletion.
 type allowedSet struct {
-	base    explore.Model
-	later   map[string]map[string]bool // key -> set of values ("\x00absent" for deletions)
-	durOp   int
-	strict  bool // no operation was issued after the durability point: contents must equal base exactly
+	base   explore.Model
+	later  map[string]map[string]bool // key -> set of values ("\x00absent" for deletions)
+	durOp  int
+	strict bool // no operation was issued after the durability point: contents must equal base exactly
 }
 
 const absentMark = "\x00absent"
